@@ -228,7 +228,7 @@ def run(ctx):
     quick = ctx.quick()
     rng = ctx.rng
     lib = c12docs.gen_library(rng)
-    n = 400 if quick else 6000
+    n = 700 if quick else 6000
     cases, rejected = gen_cases(rng, lib, n)
     ctx.log('running %d scene graphs on the implementation' % len(cases))
     results = run_cases(lib, cases)
